@@ -49,13 +49,23 @@ Theorem C19_block_text_trim : forall voids inlines phrasings fuel depth s,
 Proof. exact block_text_trim. Qed.
 Print Assumptions C19_block_text_trim.
 
-(* 6. structure is preserved: for EVERY tree with well-formed names, whatever bytes its text nodes and
-      attribute values hold (quotes, ampersands, comparison operators, mustache expressions with "<"),
-      whichever of the block / inline / compact layouts each element gets, at any depth and for any element
-      tables, tokenizing the formatted text yields exactly the tree's elements in order with their attribute
-      names (void elements without an end tag) *)
+(* 6. structure and attributes are preserved: for EVERY tree with well-formed names, whatever bytes its text
+      nodes and attribute values hold (quotes, ampersands, comparison operators, mustache expressions with
+      "<"), whichever of the block / inline / compact layouts each element gets, at any depth and for any
+      element tables, the tags a tokenizer finds in the formatted text are exactly the tree's: every element
+      in order, every attribute in order with its name and its written value, void elements without end tag *)
+Theorem C19_format_keeps_tags : forall voids inlines phrasings n depth, wf n = true ->
+  tags (snd (run (Data []) (fmt_node voids inlines phrasings (S (depthn n)) depth n))) = ftok voids n.
+Proof. exact fmt_tags. Qed.
+Print Assumptions C19_format_keeps_tags.
+(* ... each written value decodes to the original value with whitespace collapsed ... *)
+Theorem C19_written_value_decodes : forall kv,
+  dec_attr (length (snd (wattr kv))) (snd (wattr kv)) = format_attr (snd kv).
+Proof. exact wattr_decodes. Qed.
+Print Assumptions C19_written_value_decodes.
+(* ... and in particular the skeleton (elements and attribute names) is the tree's *)
 Theorem C19_format_keeps_structure : forall voids inlines phrasings n depth, wf n = true ->
-  skel (snd (run (Data []) (fmt_node voids inlines phrasings (S (depthn n)) depth n))) = fskel voids n.
+  skel (snd (run (Data []) (fmt_node voids inlines phrasings (S (depthn n)) depth n))) = skel (ftok voids n).
 Proof. exact fmt_skeleton. Qed.
 Print Assumptions C19_format_keeps_structure.
 
